@@ -198,6 +198,8 @@ class Concretiser:
             if m:
                 s = "zzsecret%d" % idn
                 node, tok = ('str', s), s
+            elif getattr(self, "_twin", None) and rng.random() < 0.6:
+                node, tok = ('str', self._twin), self._twin
             else:
                 style = "ascii" if v == 0 else rng.choice(self.styles)
                 if style == "long":          # one long literal per line keeps the line below the reader's 64 KiB limit
@@ -384,6 +386,13 @@ class Concretiser:
                 # a long operand list: numbers at the first, middle and last position, the original elements in between
                 num = ["num", elems[0][1]]
                 elems = [num] + list(elems) + [num] * (39 - len(elems))
+                if getattr(self, "twins", False):
+                    # (C03 only) one of the strings that follow is spelled exactly like the number in front of them: "7000123.45" next to 7000123.45
+                    first = self.build(elems[0], path + (0,))
+                    self._twin = first[1] if first[0] == 'num' else None
+                    rest = [self.build(v, path + (i,)) for i, v in enumerate(elems) if i > 0]
+                    self._twin = None
+                    return ('arr', [first] + rest)
             return ('arr', [self.build(v, path + (i,)) for i, v in enumerate(elems)])
         return self.leaf(tree, path)
 
@@ -429,7 +438,7 @@ def run_batch(b, lines, cfg, workdir, keyfile=None, cwd=None):
     return p.returncode, p.stdout.decode("utf-8", "replace"), p.stderr.decode("utf-8", "replace")
 
 
-_ID_RE = re.compile(r'"id":(\d+),"ctx":')
+_ID_RE = re.compile(r'"id":\s*(\d+),\s*"ctx":')
 
 
 def collect(lines_out):
@@ -652,6 +661,7 @@ def process_chunk(args):
                 c.ns_style = bool(opts.get("ns_style"))
                 c.clash = bool(opts.get("clash"))
                 c.pad_arrays = bool(opts.get("pad_arrays"))
+                c.twins = bool(opts.get("twins"))
                 c.fn_style = bool(opts.get("fn_style"))
                 c.nsrel_by_variant = bool(opts.get("fn_style"))
                 tree = c.line(rec["in"], gid)
@@ -717,9 +727,9 @@ def process_chunk(args):
 class Replay:
     """Streams TLC records into a process pool; merges what the workers report into a common.Verdict."""
 
-    def __init__(self, build, verdict, cfgs, judge_name, variants=1, chunk=1500, keymap=None, styles=None, drift=True, worker=None, ns_style=False, fn_style=False, clash=False, pad_arrays=False):
+    def __init__(self, build, verdict, cfgs, judge_name, variants=1, chunk=1500, keymap=None, styles=None, drift=True, worker=None, ns_style=False, fn_style=False, clash=False, pad_arrays=False, twins=False):
         self.b, self.v, self.cfgs = build, verdict, cfgs
-        self.opts = {"seed": verdict.seed, "variants": variants, "keymap": keymap, "styles": styles, "drift": drift, "ns_style": ns_style, "fn_style": fn_style, "clash": clash, "pad_arrays": pad_arrays}
+        self.opts = {"seed": verdict.seed, "variants": variants, "keymap": keymap, "styles": styles, "drift": drift, "ns_style": ns_style, "fn_style": fn_style, "clash": clash, "pad_arrays": pad_arrays, "twins": twins}
         self.pool = multiprocessing.get_context("fork").Pool(
             common.NCPU, initializer=_worker_init,
             initargs=({"cli": build.cli, "root": build.root, "inproc": build.inproc}, cfgs, judge_name, self.opts))
